@@ -14,7 +14,7 @@ use crate::Cfg;
 pub const FLOORS: &[&str] = &[
     "at_ffff:continue", "at_ffff:step", "at_ffff:si", "at_ffff:so", "below_origin:resume",
     "above_fe00:resume", "parked_on_halt:resume", "ended_by_eof", "bound_checked", "executed_at_fdff",
-    "halt_planted_at_breakpoint", "breakpoints_removed_after_several_hits", "halt_or_ret_written_as_a_data_word",
+    "halt_planted_at_breakpoint", "breakpoints_removed_after_several_hits", "halt_or_ret_written_as_a_data_word", "word_under_the_parked_pc_replaced", "rti_reached_under_the_debugger",
 ];
 
 pub fn run(cfg: &Cfg, col: &mut Collector) {
@@ -67,6 +67,13 @@ fn one_case(seed: u64, i: u64) -> CaseOut {
         }
         if n > 0 {
             out.class("halt_or_ret_written_as_a_data_word");
+        }
+    }
+    if rng.chance(1, 12) {
+        // an RTI where a HALT stood: lace has no interrupts to return from and gives up there - under the debugger too
+        if let Some(Item::Stmt { stmt, .. }) = built.program.items.iter_mut().find(|it| matches!(it, Item::Stmt { stmt: Stmt::Alias(0x25) | Stmt::Fill(0xF025), .. })) {
+            *stmt = if rng.bool() { Stmt::Rti } else { Stmt::Fill(0x8000) };
+            out.class("rti_reached_under_the_debugger");
         }
     }
     let img = match encode(&built.program) {
@@ -123,6 +130,13 @@ fn one_case(seed: u64, i: u64) -> CaseOut {
     }
     cmds.push(Cmd::Continue);
     if rng.chance(1, 5) {
+        // parked where the program stopped (on its HALT, as a rule): the word under the PC is replaced by an
+        // ordinary instruction, and on it goes
+        cmds.push(Cmd::MoveMemLoc(crate::refdbg::Loc::Pc(0), *rng.pick(&[0x1021u16, 0x5020, 0x0000, 0x1DA1])));
+        cmds.push(if rng.bool() { Cmd::Continue } else { Cmd::Step });
+        out.class("word_under_the_parked_pc_replaced");
+    }
+    if rng.chance(1, 5) {
         // back to the start and once more through the whole program
         cmds.push(Cmd::Reset);
     }
@@ -158,7 +172,18 @@ fn one_case(seed: u64, i: u64) -> CaseOut {
         return out;
     };
     if stats.discarded.is_some() {
+        // (a run the reference machine says nothing about - an RTI, a loop without end: what it does is not
+        // compared, but the bound of the property is about the session's own counters and holds all the same)
         out.class("discarded");
+        let (e, c) = (sess.obs.fetches, sess.obs.commands.len() as u64 + 1);
+        if sess.obs.ticks > 2 * (e + c) + 8 {
+            out.violate(
+                "C16/iterations-exceed-bound",
+                i,
+                format!("{} run-loop iterations for {} instructions executed and {} commands read (bound {})", sess.obs.ticks, e, c, 2 * (e + c) + 8),
+                crate::dbgmon::session_json(&text, &lines, stack, &built.input),
+            );
+        }
         return out;
     }
     // where resuming commands were issued
@@ -197,7 +222,7 @@ fn one_case(seed: u64, i: u64) -> CaseOut {
             out.class("breakpoints_removed_after_several_hits");
         }
     }
-    if cmds.iter().any(|c| matches!(c, Cmd::MoveMemLoc(..))) {
+    if cmds.iter().any(|c| matches!(c, Cmd::MoveMemLoc(_, 0xF025))) {
         out.class("halt_planted_at_breakpoint");
     }
     if sess.snaps.iter().any(|s| s.pc == 0xFE00 && s.fetches > 0) && matches!(built.ending, Ending::JumpHigh) {
